@@ -1,48 +1,94 @@
 (* Properties_C01: TCP payload is delivered complete, in order and exactly once, both directions.
-   Only statements, closed by [exact], with Print Assumptions and non-vacuity examples.
-   The model (Conn_Model: one TcpConnection as a sequential state machine driven by an
-   adversarial environment; every schedule of loop-thread calls, foreign-thread micro-steps,
-   kernel answers and poller events is an op list) is tied to muduo/net/TcpConnection.cc by
-   the correspondence check of bin/check C01.
-   [reach c] = c is reached from [init mark wc hw] by some list of accepted ops (any high-water
-   mark, any installed callbacks); definitions used below (Conn_Proofs):
-     send_of c o     = the sendInLoop a step executes: Some (block, kernel answer, queue it
-                       starts from) for [Send d k] in state Connected and for [RunOne k] whose
-                       oldest functor is [FSend _ d] while the connection is not Disconnected;
-     send_fatal c k  = the direct write was attempted and answered EPIPE / ECONNRESET;
-     block_taken c o = the block that sendInLoop took responsibility for ([] if none);
-     sends_of l      = the (thread, block) pairs of the FSend functors in queue l, in order. *)
+   Only statements, closed by [exact], each followed by Print Assumptions, and non-vacuity examples.
+
+   The model (Conn_Model: one TcpConnection as a sequential state machine driven by an adversarial
+   environment) makes every schedule an op list: loop-thread calls ([Send d k], [Shutdown], ...),
+   foreign-thread calls cut into their atomic micro-steps ([FSendCheck t] = the unsynchronised
+   state test of send(), [FSendEnq t d] = the enqueue of the bound sendInLoop), the loop running
+   its oldest pending functor ([RunOne k]), poller events ([EvWritable k], [EvReadData d], ...),
+   with the kernel's answer k to every write() call chosen by the environment
+   (k ::= Accept n (takes min n len) | AcceptAll | Err errno).  Quantifying over op lists is
+   quantifying over all block sizes, thread assignments, kernel split patterns and placements of
+   stopRead / startRead.  [run c ops = Ok (c', e)]: every op of ops was accepted and e are the
+   events (callbacks, log lines) in order.  [reach c]: c is reached from some [init mark wc hw].
+
+   Tie to the C++: (1) the guards and argument expressions of the CURRENT TcpConnection.cc are
+   regenerated (Gen_Conn.v) and the model functions are proved equal to the functions
+   re-assembled from them (section "source" below); (2) differential execution of the extracted
+   model against the real class, and the property text as an oracle (bin/check C01). *)
 From Coq Require Import List ZArith Lia Bool Arith NArith.
 From Coq.Strings Require Import Byte.
-From Muduo Require Import Conn_Model Conn_Proofs.
+From Muduo Require Import Gen_Consts Gen_Conn Conn_Model Conn_Proofs Conn_Trace
+                          Conn_GenTie Conn_GenTieLife Conn_GenTieRead.
 Import ListNotations.
 
-(* ---- no assertion of the C++ can fire; the invariant holds in every reachable state ---- *)
-Theorem C01_reach_inv : forall c, reach c -> Inv c.
-Proof. exact reach_inv. Qed.
-Print Assumptions C01_reach_inv.
+(* ========================================================================================== *)
+(* Outbound: what the peer reads                                                                *)
+(* ========================================================================================== *)
+(* HEADLINE.  For every history from the initial state: the bytes the kernel accepted (= what
+   the peer reads, in order) followed by the unsent backlog are exactly the concatenation, in
+   sendInLoop order, of the blocks of the steps of the history - each block whole, unmodified,
+   once.  [trace] lists the (state before, op, state after) triples; the block of a step is the
+   block of the sendInLoop it executes (see the three *_def theorems below): a loop-thread send()
+   in state Connected, or the loop running a queued FSend while the connection is not yet
+   Disconnected, unless the direct write was answered EPIPE / ECONNRESET. *)
+Theorem C01_outbound_stream_trace : forall mark wc hw ops c e,
+  run (init mark wc hw) ops = Ok (c, e) ->
+  wire c ++ outb c = flat_map step_block (trace (init mark wc hw) ops).
+Proof. exact outbound_trace. Qed.
+Print Assumptions C01_outbound_stream_trace.
 
-Theorem C01_step_inv : forall c o c' e, Inv c -> step c o = Ok (c', e) -> Inv c'.
-Proof. exact step_inv. Qed.
-Print Assumptions C01_step_inv.
+Theorem C01_trace_def : forall c ops,
+  trace c ops = match ops with
+                | [] => []
+                | o :: r => match step c o with
+                            | Ok (c1, _) => (c, o, c1) :: trace c1 r
+                            | _ => []
+                            end
+                end.
+Proof. exact trace_unfold. Qed.
+Print Assumptions C01_trace_def.
 
-(* handleClose's state assert, Channel::remove's isNoneEvent assert, removing an unknown channel *)
-Theorem C01_no_fault : forall c o, Inv c -> step c o <> Fault.
-Proof. exact no_fault. Qed.
-Print Assumptions C01_no_fault.
+Theorem C01_step_block_def : forall c o c',
+  step_block (c, o, c') =
+  match send_of c o with
+  | Some (d, k, _) => if send_fatal c k then [] else d
+  | None => []
+  end.
+Proof. exact step_block_unfold. Qed.
+Print Assumptions C01_step_block_def.
 
-Theorem C01_run_no_fault : forall ops c, Inv c -> run c ops <> Fault.
-Proof. exact run_no_fault. Qed.
-Print Assumptions C01_run_no_fault.
+(* the sendInLoop a step executes: block, kernel answer, functor queue it starts from *)
+Theorem C01_send_of_def : forall c o,
+  send_of c o =
+  match o with
+  | Send d k => if cstate_eqb (st c) Connected then Some (d, k, pending c) else None
+  | RunOne k =>
+      match pending c with
+      | FSend _ d :: rest => if cstate_eqb (st c) Disconnected then None else Some (d, k, rest)
+      | _ => None
+      end
+  | _ => None
+  end.
+Proof. exact send_of_unfold. Qed.
+Print Assumptions C01_send_of_def.
 
-Theorem C01_run_reaches : forall ops c c' e, reach c -> run c ops = Ok (c', e) -> reach c'.
-Proof. exact run_reach. Qed.
-Print Assumptions C01_run_reaches.
+(* the only way a sendInLoop drops its block: the direct write was attempted (nothing queued,
+   write interest off) and answered EPIPE / ECONNRESET - which is also what the kernel answers
+   once the write side has been shut down ([effective]) *)
+Theorem C01_send_fatal_iff : forall c k, send_fatal c k = true <->
+  writing c = false /\ outb c = [] /\ exists e, effective c k = Err e /\ is_fatal e = true.
+Proof. exact send_fatal_iff. Qed.
+Print Assumptions C01_send_fatal_iff.
 
-(* ---- outbound ---------------------------------------------------------------------------- *)
-(* what the peer reads followed by the backlog is exactly the concatenation of the blocks
-   sendInLoop took, in sendInLoop order, for every kernel acceptance pattern; the wire only
-   ever grows at its end *)
+(* the same from any reachable state: a history only appends its blocks to the stream *)
+Theorem C01_outbound_stream_from : forall ops c c' e, reach c -> run c ops = Ok (c', e) ->
+  wire c' ++ outb c' = (wire c ++ outb c) ++ flat_map step_block (trace c ops).
+Proof. exact outbound_trace_from. Qed.
+Print Assumptions C01_outbound_stream_from.
+
+(* per step, with the ghost stream [accepted] (= concatenation of the blocks taken so far): the
+   invariant, and the wire only ever grows at its end *)
 Theorem C01_outbound_stream : forall c, reach c ->
   wire c ++ outb c = accepted c /\
   forall o c' e, step c o = Ok (c', e) ->
@@ -56,30 +102,52 @@ Theorem C01_block_taken_def : forall c o,
   | Some (d, k, _) => if send_fatal c k then [] else d
   | None => []
   end.
-Proof. reflexivity. Qed.
+Proof. exact block_taken_unfold. Qed.
 Print Assumptions C01_block_taken_def.
 
-Theorem C01_send_of_def : forall c o,
-  send_of c o =
-  match o with
-  | Send d k => if cstate_eqb (st c) Connected then Some (d, k, pending c) else None
-  | RunOne k =>
-      match pending c with
-      | FSend _ d :: rest => if cstate_eqb (st c) Disconnected then None else Some (d, k, rest)
-      | _ => None
-      end
-  | _ => None
-  end.
-Proof. reflexivity. Qed.
-Print Assumptions C01_send_of_def.
+(* the block appended by one sendInLoop stays contiguous, unmodified and at the same position
+   of the outbound stream in every later state *)
+Theorem C01_block_contiguous : forall c o c1 e1 ops c2 e2,
+  reach c -> step c o = Ok (c1, e1) -> run c1 ops = Ok (c2, e2) ->
+  exists post, wire c2 ++ outb c2 = (wire c ++ outb c) ++ block_taken c o ++ post.
+Proof. exact P01_block_contiguous. Qed.
+Print Assumptions C01_block_contiguous.
 
-Theorem C01_send_fatal_iff : forall c k, send_fatal c k = true <->
-  writing c = false /\ outb c = [] /\ exists e, effective c k = Err e /\ is_fatal e = true.
-Proof. exact send_fatal_iff. Qed.
-Print Assumptions C01_send_fatal_iff.
+(* ========================================================================================== *)
+(* Order: blocks sent from one thread arrive in the order they were sent                        *)
+(* ========================================================================================== *)
+(* Loop thread: send() runs sendInLoop inline (C01_send_of_def), so its blocks enter the stream
+   in call order by C01_outbound_stream_trace.  Foreign threads: the (thread, block) pairs whose
+   sendInLoop has run, followed by those still queued, are the pairs enqueued, in enqueue order -
+   FIFO through the functor queue across any number of batches; so per thread the blocks run, and
+   by the headline theorem enter the stream, in the order the thread issued them. *)
+Theorem C01_per_thread_order : forall mark wc hw ops c e,
+  run (init mark wc hw) ops = Ok (c, e) ->
+  let tr := trace (init mark wc hw) ops in
+  flat_map step_ran tr ++ sends_of (pending c) = flat_map step_enq tr /\
+  forall t, exists later,
+    filter (fun x => fst x =? t) (flat_map step_enq tr) = filter (fun x => fst x =? t) (flat_map step_ran tr) ++ later.
+Proof. exact foreign_fifo_trace. Qed.
+Print Assumptions C01_per_thread_order.
 
-(* foreign sends reach sendInLoop in enqueue order, across any number of RunOne steps; hence
-   the sends of each thread t run in the order t issued them *)
+Theorem C01_step_enq_ran_def : forall c o c',
+  step_enq (c, o, c') = match o with
+                        | FSendEnq t d => if lookup t (chk c) then [(t, d)] else []
+                        | _ => []
+                        end /\
+  step_ran (c, o, c') = match o with
+                        | RunOne _ => match pending c with FSend t d :: _ => [(t, d)] | _ => [] end
+                        | _ => []
+                        end.
+Proof. exact step_enq_ran_unfold. Qed.
+Print Assumptions C01_step_enq_ran_def.
+
+Theorem C01_sends_of_def : forall l,
+  sends_of l = flat_map (fun f => match f with FSend t d => [(t, d)] | _ => [] end) l.
+Proof. exact sends_of_unfold. Qed.
+Print Assumptions C01_sends_of_def.
+
+(* the same as an invariant of every reachable state, with the ghost lists enq / ran *)
 Theorem C01_foreign_fifo : forall c, reach c ->
   ran c ++ sends_of (pending c) = enq c /\
   (forall t, exists later, filter (fun x => fst x =? t) (enq c)
@@ -98,23 +166,44 @@ Theorem C01_enq_ran_of_def : forall c o,
                | RunOne _ => match pending c with FSend t d :: _ => [(t, d)] | _ => [] end
                | _ => []
                end.
-Proof. split; reflexivity. Qed.
+Proof. exact enq_ran_of_unfold. Qed.
 Print Assumptions C01_enq_ran_of_def.
 
-(* the block appended by one sendInLoop stays contiguous, unmodified and at the same position
-   of the outbound stream in every later state *)
-Theorem C01_block_contiguous : forall c o c1 e1 ops c2 e2,
-  reach c -> step c o = Ok (c1, e1) -> run c1 ops = Ok (c2, e2) ->
-  exists post, wire c2 ++ outb c2 = (wire c ++ outb c) ++ block_taken c o ++ post.
-Proof. exact P01_block_contiguous. Qed.
-Print Assumptions C01_block_contiguous.
-
+(* ========================================================================================== *)
+(* Write interest is on exactly while the backlog is non-empty                                  *)
+(* ========================================================================================== *)
+(* hence every queued byte is offered to the kernel at the next writability event, and the
+   poller is not asked for writability when nothing is queued *)
 Theorem C01_write_interest_iff_backlog : forall c, reach c ->
   st c = Connected \/ st c = Disconnecting -> (writing c = true <-> outb c <> []).
 Proof. exact P01_write_interest. Qed.
 Print Assumptions C01_write_interest_iff_backlog.
 
-(* ---- inbound ----------------------------------------------------------------------------- *)
+(* ========================================================================================== *)
+(* Inbound: what the message callback is handed                                                 *)
+(* ========================================================================================== *)
+(* HEADLINE.  For every history: the bytes the user consumed followed by those still in the
+   input buffer are exactly the concatenation of the kernel's deliveries, in delivery order -
+   none lost, duplicated or reordered, wherever stopRead / startRead occur in the history - and
+   the message callback ran exactly once per delivery. *)
+Theorem C01_inbound_stream_trace : forall mark wc hw ops c e,
+  run (init mark wc hw) ops = Ok (c, e) ->
+  consumed c ++ inb c = flat_map read_of ops /\
+  length (filter is_msg e) = length (filter is_read ops).
+Proof. exact inbound_trace. Qed.
+Print Assumptions C01_inbound_stream_trace.
+
+Theorem C01_read_of_def : forall o,
+  read_of o = (match o with EvReadData d => d | _ => [] end) /\
+  is_read o = (match o with EvReadData _ => true | _ => false end).
+Proof. exact read_of_unfold. Qed.
+Print Assumptions C01_read_of_def.
+
+Theorem C01_is_msg_def : forall ev, is_msg ev = match ev with EvMsg _ => true | _ => false end.
+Proof. exact is_msg_unfold. Qed.
+Print Assumptions C01_is_msg_def.
+
+(* per step: which op moves which bytes, and the callback sees the whole buffered input *)
 Theorem C01_inbound_stream : forall c, reach c ->
   consumed c ++ inb c = delivered c /\
   forall o c' e, step c o = Ok (c', e) ->
@@ -148,10 +237,36 @@ Theorem C01_pause_op_def : forall c o,
   | RunOne _ => match pending c with (FStartRead | FStopRead) :: _ => true | _ => false end
   | _ => false
   end.
-Proof. reflexivity. Qed.
+Proof. exact pause_op_unfold. Qed.
 Print Assumptions C01_pause_op_def.
 
-(* ---- "accepted by send()" (finding F-6) -------------------------------------------------- *)
+(* ========================================================================================== *)
+(* No assertion of the C++ can fire; the invariant holds in every reachable state               *)
+(* ========================================================================================== *)
+Theorem C01_reach_inv : forall c, reach c -> Inv c.
+Proof. exact reach_inv. Qed.
+Print Assumptions C01_reach_inv.
+
+Theorem C01_step_inv : forall c o c' e, Inv c -> step c o = Ok (c', e) -> Inv c'.
+Proof. exact step_inv. Qed.
+Print Assumptions C01_step_inv.
+
+(* handleClose's state assert, Channel::remove's isNoneEvent assert, removing an unknown channel *)
+Theorem C01_no_fault : forall c o, Inv c -> step c o <> Fault.
+Proof. exact no_fault. Qed.
+Print Assumptions C01_no_fault.
+
+Theorem C01_run_no_fault : forall ops c, Inv c -> run c ops <> Fault.
+Proof. exact run_no_fault. Qed.
+Print Assumptions C01_run_no_fault.
+
+Theorem C01_run_reaches : forall ops c c' e, reach c -> run c ops = Ok (c', e) -> reach c'.
+Proof. exact run_reach. Qed.
+Print Assumptions C01_run_reaches.
+
+(* ========================================================================================== *)
+(* "accepted by send()" (finding F-6)                                                           *)
+(* ========================================================================================== *)
 (* Full text: every block accepted by send() while the connection is up reaches the peer.
    False of the faithful model: the foreign send passed its state test while Connected and
    was enqueued, a loop-thread shutdown() ran inline and half-closed first, then the functor
@@ -166,7 +281,7 @@ Print Assumptions C01_accepted_delivered_witness.
 
 Theorem C01_f6_ops_def : forall d,
   f6_ops d = [Establish; FSendCheck 1; FSendEnq 1 d; Shutdown; RunOne AcceptAll].
-Proof. reflexivity. Qed.
+Proof. exact f6_ops_unfold. Qed.
 Print Assumptions C01_f6_ops_def.
 
 Theorem C01_accepted_delivered_refuted :
@@ -195,12 +310,83 @@ Print Assumptions C01_accepted_delivered_partial.
 
 Theorem C01_nonfatal_def : forall k,
   nonfatal k = match k with Err e => is_fatal e = false | _ => True end.
-Proof. reflexivity. Qed.
+Proof. exact nonfatal_unfold. Qed.
 Print Assumptions C01_nonfatal_def.
 
-(* ---- non-vacuity: partial write, backlog crossing the mark (4), foreign send queued behind
-   the backlog, paused reading, EAGAIN on the drain path, shutdown with a backlog (deferred
-   half-close), drain, data still received after the half-close ------------------------------ *)
+(* ========================================================================================== *)
+(* Source: the model functions ARE the current TcpConnection.cc, guard by guard                 *)
+(* ========================================================================================== *)
+(* [sendInLoop_src] / [handleWrite_src] (Conn_GenTie.v) follow the C++ text statement by
+   statement and take every branch condition and every stream-relevant argument (len - nwrote,
+   data + nwrote, retrieve(n), the errno tests) from Gen_Conn.v, which is regenerated from the
+   clang AST of /repo's TcpConnection.cc on every run.  An edit of those expressions in the
+   source makes these theorems fail. *)
+Theorem C01_sendInLoop_is_source : forall c d k, sendInLoop_src c d k = sendInLoop c d k.
+Proof. exact sendInLoop_is_source. Qed.
+Print Assumptions C01_sendInLoop_is_source.
+
+Theorem C01_handleWrite_is_source : forall c k, handleWrite_src c k = handleWrite c k.
+Proof. exact handleWrite_is_source. Qed.
+Print Assumptions C01_handleWrite_is_source.
+
+(* send(): `if (state_ == kConnected)` then, on the loop thread, sendInLoop inline; the foreign
+   path records the same test and enqueues only if it passed *)
+Theorem C01_send_is_source : forall c d k, st c <> Connecting ->
+  step c (Send d k) =
+  Ok (if send_sp_state_test TcpConnection_kConnected (st_code (st c))
+      then (if send_sp_inloop_test true then sendInLoop_src c d k else (c, []))
+      else (c, [])).
+Proof. exact send_is_source. Qed.
+Print Assumptions C01_send_is_source.
+
+Theorem C01_foreign_send_is_source : forall c t d, st c <> Connecting ->
+  (exists c', step c (FSendCheck t) = Ok (c', []) /\
+     chk c' = (t, send_sp_state_test TcpConnection_kConnected (st_code (st c))) :: chk c /\
+     pending c' = pending c /\ st c' = st c /\ outb c' = outb c /\ wire c' = wire c) /\
+  (exists c', step c (FSendEnq t d) = Ok (c', []) /\
+     pending c' = (if lookup t (chk c) then (if send_sp_inloop_test false then pending c else pending c ++ [FSend t d])
+                   else pending c)).
+Proof. exact foreign_send_is_source. Qed.
+Print Assumptions C01_foreign_send_is_source.
+
+(* handleRead: n > 0 -> message callback; n == 0 -> handleClose; else -> log only *)
+Theorem C01_handleRead_is_source : forall c d, (rd_chan c && registered c)%bool = true ->
+  (0 < length d -> step c (EvReadData d) = handleRead_src c (Z.of_nat (length d)) d) /\
+  step c EvReadEOF = handleRead_src c 0 [] /\
+  step c EvReadErr = handleRead_src c (-1) [].
+Proof. exact handleRead_is_source. Qed.
+Print Assumptions C01_handleRead_is_source.
+
+Theorem C01_pause_is_source : forall c,
+  startReadInLoop c =
+    (if startReadInLoop_startread_test (rd_chan c) TcpConnection_kDisconnected (rd_flag c) (st_code (st c))
+     then set_reading c true true else c) /\
+  stopReadInLoop c =
+    (if stopReadInLoop_stopread_test (rd_chan c) TcpConnection_kDisconnected (rd_flag c) (st_code (st c))
+     then set_reading c false false else c).
+Proof. exact (fun c => conj (startRead_is_source c) (stopRead_is_source c)). Qed.
+Print Assumptions C01_pause_is_source.
+
+(* structure of the current source: all three send overloads reduce to the StringPiece one or
+   behave like it, and the functor a foreign send() queues owns a COPY of the payload (the
+   model's [FSend t d] carries d by value) *)
+Theorem C01_source_structure :
+  send_ptr_delegates_to_send = true /\
+  send_sp_inloop_sends_inline = true /\ send_sp_foreign_copies_payload = true /\
+  send_buf_inloop_sends_inline = true /\ send_buf_foreign_copies_payload = true /\
+  send_buf_inloop_empties_caller_buffer = true /\
+  shutdown_runs_in_loop = true /\
+  forceClose_queues_strong_ref = true /\
+  forceCloseWithDelay_holds_weak_ref = true.
+Proof. exact source_structure_life. Qed.
+Print Assumptions C01_source_structure.
+
+(* ========================================================================================== *)
+(* Non-vacuity                                                                                  *)
+(* ========================================================================================== *)
+(* partial write, backlog crossing the mark (4), foreign send queued behind the backlog, paused
+   reading, EAGAIN on the drain path, shutdown with a backlog (deferred half-close), drain, data
+   still received after the half-close *)
 Definition ex_ops : list op :=
   [ Establish;
     Send [x61; x62; x63; x64] (Accept 1);
@@ -219,6 +405,13 @@ Example ex_run :
     st c = Disconnecting /\ ran c = [(7, [x65; x66])] /\
     consumed c = [x70] /\ inb c = [x71; x72].
 Proof. vm_compute. eexists. repeat split. Qed.
+
+(* the right-hand sides of the two headline theorems on that history *)
+Example ex_trace_blocks :
+  flat_map step_block (trace (init 4%N true true) ex_ops) = [x61; x62; x63; x64; x65; x66] /\
+  flat_map step_enq (trace (init 4%N true true) ex_ops) = [(7, [x65; x66])] /\
+  flat_map read_of ex_ops = [x70; x71; x72] /\ length (filter is_read ex_ops) = 2.
+Proof. vm_compute. repeat split. Qed.
 
 (* a reachable state with a non-empty backlog, write interest on, a foreign send pending *)
 Example ex_reach_backlog :
